@@ -230,6 +230,41 @@ func propC03(h *H) {
 			}
 		}
 	}
+	// values that share memory: a value and a shorter window of the same backing
+	// array, a value and itself (the answer may not depend on addresses)
+	for i := 0; i < n; i++ {
+		x := gens[i]()
+		for _, y := range AliasVariants(x) {
+			ref := RefEqual(x, y, true)
+			if ref != RefEqual(x, y, false) || ref != RefEqualRootMethod(x, y) {
+				continue // method-sensitive pairs are judged in the main loop
+			}
+			h.St.States++
+			r1, p1 := Call(cmp, x, y)
+			r2, p2 := Call(cmp, y, x)
+			h.St.Evals += 2
+			if p1 != "" || p2 != "" {
+				h.Violation("compare-panics", "aliased|"+panKey(x, y), p1+p2, x, y)
+				continue
+			}
+			c1, c2 := int(r1[0].Int()), int(r2[0].Int())
+			d := Diff(x, y)
+			eqv := ref
+			if eq.IsValid() {
+				if r, pan := Call(eq, x, y); pan == "" {
+					eqv = r[0].Bool()
+				}
+			}
+			switch {
+			case c1 != -c2:
+				h.Violation("antisymmetry", fmt.Sprintf("aliased-memory|%s|%s|%s", d.Kind, d.Type, d.Ctx), fmt.Sprintf("the two arguments share memory: cmp(x,y)=%d cmp(y,x)=%d", c1, c2), x, y)
+			case (c1 == 0) != eqv:
+				h.Violation("zero-iff-equal", fmt.Sprintf("aliased-memory|cmp=%s|equal=%v|%s|%s|%s", zs(c1), eqv, d.Kind, d.Type, d.Ctx), fmt.Sprintf("the two arguments share memory (same backing array / same addresses): Compare=%d but derived Equal=%v; first difference at %q", c1, eqv, d.Path), x, y)
+			case (c1 == 0) != ref && !um:
+				h.Violation("zero-iff-equal", fmt.Sprintf("aliased-memory|cmp=%s|reference=%v|%s|%s|%s", zs(c1), ref, d.Kind, d.Type, d.Ctx), fmt.Sprintf("the two arguments share memory: Compare=%d but the values are structurally equal: %v", c1, ref), x, y)
+			}
+		}
+	}
 	// antisymmetry on all pairs
 	for i := 0; i < n; i++ {
 		for j := i; j < n; j++ {
